@@ -61,6 +61,9 @@ type caseDesc struct {
 	// PeekDownConsume: the relay keeps the peeked downlink bytes for itself (a preamble it strips) instead of
 	// forwarding them; the client must then receive the stream without them.
 	PeekDownConsume bool `json:"relay_consumes_downlink_peek,omitempty"`
+	// RelayBanner: before it starts copying, the relay itself writes that many bytes to the client (a greeting, a
+	// "connection established" line): the downstream server conn has already written when the typed copy begins.
+	RelayBanner int `json:"relay_banner,omitempty"`
 }
 
 var writeSizes = []int{1, 2, 15, 16, 17, 4095, 4096, 65534, 65535, 65536, 65537, 131071}
@@ -208,6 +211,9 @@ func genCase(e *core.Env, r *core.RNG) caseDesc {
 				d.PeekDown = d.SWrites[0] // exactly the first chunk
 			}
 			d.PeekDownConsume = x.Chance(1, 3)
+		}
+		if x.Chance(1, 3) {
+			d.RelayBanner = x.Pick(1, 39, 1000, 70000)
 		}
 	}
 	return d
@@ -622,6 +628,14 @@ func tunnelCase(e *core.Env, ci int, r *core.RNG, d *caseDesc) {
 				}
 				return true
 			}
+			if d.RelayBanner > 0 {
+				if _, werr := sc1.Write(core.Pattern(tagS+7, 0, d.RelayBanner)); werr != nil {
+					setErr(fmt.Errorf("relay banner: %w", werr))
+					sc1.Close()
+					cc2.Close()
+					return
+				}
+			}
 			if !peek(sc1, cc2, d.PeekUp, "uplink") || !peek(cc2, sc1, d.PeekDown, "downlink") {
 				sc1.Close()
 				cc2.Close()
@@ -705,6 +719,9 @@ func tunnelCase(e *core.Env, ci int, r *core.RNG, d *caseDesc) {
 		return
 	}
 	s2c := core.Pattern(tagS, 0, sum(d.SWrites))[consumedDown:]
+	if d.Chain && d.RelayBanner > 0 {
+		s2c = append(core.Pattern(tagS+7, 0, d.RelayBanner), s2c...)
+	}
 	if x := core.FirstDiff(cli.got, s2c); x >= 0 {
 		viol("s2c_stream_mismatch", "server->client stream differs at offset %d (got %d bytes, want %d)", x, len(cli.got), len(s2c))
 		return
